@@ -683,9 +683,97 @@ def run_anon_out(ctx: Ctx | None, case: dict) -> None:
             ctx.case(case, info["nt"], cls=info["cls"], sample=case)
 
 
+def run_stale_intro(ctx: Ctx | None, case: dict) -> None:
+    """
+    A create-e2e that reaches an introduction point over its socket is passed on to the seeder through the seeder's
+    introduction circuit, i.e. as data returned through the exit of that circuit: under the exit's layer on the last
+    link, one more per link before it. The case asks for that before and after the introduction point has dropped the
+    exit entry (told so by the seeder / unloaded / inactivity sweep): the message must never be readable in a cell.
+    """
+    c = case
+    info = {"nt": False, "cls": "e2e_stale_intro/%dhop/how%d/%s" % (c["hops"], c["how"], "service" if c["service"] else "bare")}
+
+    def fail(clause, site, msg):
+        raise Violation(clause, "e2e:stale_intro:" + site, msg, case)
+
+    async def main(loop):
+        import random
+
+        from ..tunnelsim import HiddenWorld
+        hops, ih = c["hops"], b"\x34" * 20
+        w = HiddenWorld(loop, 4 + hops, service=bool(c["service"]))
+        try:
+            random.seed(c["seed"])
+            seeder = w.nodes[0]
+            seeder.overlay.join_swarm(ih, hops, lambda addr: None, seeding=True)
+            try:
+                await asyncio.wait_for(seeder.overlay.create_introduction_point(ih), 60.0)
+            except asyncio.TimeoutError:
+                pass
+            await asyncio.sleep(1.0)
+            points = [(nd, pk, sock) for nd in w.nodes for pk, (sock, h) in nd.overlay.intro_point_for.items()]
+            if not points:
+                info["cls"] += "/not_established"
+                return
+            intro, seeder_pk, sock = points[0]
+            cid = sock.circuit_id
+            ours = [x for x in seeder.overlay.circuits.values() if x.ctype == "IP_SEEDER"]
+
+            def create_e2e(n: int) -> tuple:
+                key = bytes((c["seed"] * 7 + n * 31 + i * 13 + 5) & 0xFF for i in range(32))
+                return key, (w.prefix + b"\x0d" + struct.pack(">H", 100 + n) + ih + struct.pack(">H", len(seeder_pk))
+                             + seeder_pk + struct.pack(">H", len(key)) + key)
+
+            async def offer(n: int, label: str) -> int:
+                key, dgram = create_e2e(n)
+                seq = w.net.seq
+                w.net.inject(("6.6.6.6", 6000 + n), intro.address, dgram, note="create-e2e over the socket")
+                await asyncio.sleep(1.0)
+                cells = 0
+                for fl in w.net.log:
+                    if fl.seq <= seq or fl.origin is None or parse_cell(fl.data, w.prefix) is None:
+                        continue
+                    cells += 1
+                    if key in fl.data or seeder_pk in fl.data:
+                        fail("I2", "plaintext", f"{label}: the create-e2e the introduction point was given over its socket "
+                                                f"is readable in a {len(fl.data)}-byte cell on the link {fl.src} -> {fl.dst} "
+                                                f"(circuit {parse_cell(fl.data, w.prefix)['circuit_id']}): it was passed on "
+                                                f"without any encryption layer")
+                return cells
+            before = await offer(0, "introduction circuit alive")
+            how = c["how"]
+            if how == 0:
+                await intro.overlay.remove_exit_socket(cid, "harness: dropped by the introduction point", remove_now=True)
+            elif how == 1 and ours:
+                await seeder.overlay.remove_circuit(ours[0].circuit_id, "harness: seeder gives the circuit up",
+                                                    remove_now=True, destroy=True)
+            else:
+                sock.last_activity -= 10_000
+                intro.overlay.do_remove()
+            await asyncio.sleep(12.0)
+            if cid in intro.overlay.exit_sockets:
+                info["cls"] += "/not_removed"
+                return
+            await offer(1, "after the introduction point dropped the exit entry")
+            await offer(2, "after the introduction point dropped the exit entry (again)")
+            if w.net.escaped:
+                e = w.net.escaped[0][3]
+                fail("I3", "exception:" + type(e).__name__, f"{type(e).__name__}: {e} left the receive path")
+            info["nt"] = before > 0
+        finally:
+            await w.close()
+    try:
+        vloop.run(main)
+    finally:
+        if ctx is not None:
+            ctx.case(case, info["nt"], cls=info["cls"], sample=case)
+
+
 def run_case(ctx: Ctx | None, case: dict) -> None:
     if case.get("kind") == "anon_out":
         return run_anon_out(ctx, case)
+    if case.get("kind") == "e2e_stale_intro":
+        return run_stale_intro(ctx, case)
     if case.get("kind", "").startswith("e2e"):
         runner = E2ECase(case)
         info = vloop.run(runner.main)
@@ -750,6 +838,9 @@ def _random_shard(ctx: Ctx, shard: int, nshards: int, n: int) -> None:
                                   "gap": st.sampled_from([0.0, 0.01, 0.3]), "size": st.sampled_from([2, 30, 300]),
                                   "stack": st.sampled_from([None, "v4", "dual"])})
     hyp_run(ctx, "anon_out", anon, lambda c: run_case(ctx, c), max(6, n // 10))
+    stale = st.fixed_dictionaries({"kind": st.just("e2e_stale_intro"), "hops": st.integers(1, 2), "seed": st.integers(0, 1000),
+                                   "how": st.integers(0, 2), "service": st.sampled_from([0, 0, 1])})
+    hyp_run(ctx, "stale_intro", stale, lambda c: run_case(ctx, c), max(4, n // 20))
 
 
 def _sweep_shard(ctx: Ctx, shard: int, nshards: int, hops: int, size: int, step: int) -> None:
